@@ -275,6 +275,11 @@ pub enum MultiProofVerificationError {
     PathsOutOfOrder,
     /// Extra siblings were provided.
     TooManySiblings,
+    /// Fewer siblings were provided than the paths require.
+    TooFewSiblings,
+    /// The depth of a path is impossible: beyond the trie depth, beyond the length of its terminal's
+    /// position, or inconsistent with the positions of its neighbours.
+    InvalidDepth,
 }
 
 #[derive(Debug, Clone)]
@@ -424,6 +429,9 @@ pub fn verify<H: NodeHasher>(
     let mut verified_bisections = Vec::new();
     for i in 0..multi_proof.paths.len() {
         let path = &multi_proof.paths[i];
+        if path.depth > 256 || path.terminal.path().len() < path.depth {
+            return Err(MultiProofVerificationError::InvalidDepth);
+        }
         if i > 0 {
             if path.terminal.path() <= multi_proof.paths[i - 1].terminal.path() {
                 return Err(MultiProofVerificationError::PathsOutOfOrder);
@@ -479,7 +487,13 @@ fn verify_range<H: NodeHasher>(
         // at a terminal node, 'siblings' will contain all unique
         // nodes, hash them up, and return that
         let terminal_path = &paths[0];
-        let unique_len = terminal_path.depth - start_depth;
+        let Some(unique_len) = terminal_path.depth.checked_sub(start_depth) else {
+            // the terminal claims to sit above the bisection which isolated it.
+            return Err(MultiProofVerificationError::InvalidDepth);
+        };
+        if siblings.len() < unique_len {
+            return Err(MultiProofVerificationError::TooFewSiblings);
+        }
 
         let node = hash_path::<H>(
             terminal_path.terminal.node::<H>(),
@@ -508,7 +522,14 @@ fn verify_range<H: NodeHasher>(
     );
 
     let common_len = start_depth + common_bits;
-    // TODO: if `common_len` == 256 the multi-proof is malformed. error
+    // every path of the range continues below the bisection at `common_len`. This also rejects a
+    // terminal whose position is a prefix of another one's.
+    if paths.iter().any(|p| p.depth <= common_len) {
+        return Err(MultiProofVerificationError::InvalidDepth);
+    }
+    if siblings.len() < common_bits {
+        return Err(MultiProofVerificationError::TooFewSiblings);
+    }
 
     let uncommon_start_len = common_len + 1;
 
